@@ -205,8 +205,8 @@ def align_exponents(*polys: PolyLike) -> Tuple[ndpoly, ...]:
 
     """
     polys_ = [numpoly.aspolynomial(poly) for poly in polys]
-    if not all(polys_[0].names == poly.names for poly in polys_):
-        polys_ = list(align_indeterminants(*polys_))
+    # also when all operands share one name tuple: it may not be in index order
+    polys_ = list(align_indeterminants(*polys_))
 
     global_exponents = numpy.vstack([poly.exponents for poly in polys_])
     global_exponents = numpy.unique(global_exponents, axis=0).tolist()
